@@ -253,15 +253,18 @@ def publication_widening(ctx, facts, upd=UPD, scope=('datafusion_physical_plan',
                         if e[0] == 'callargs' and e[1] == upd and len(e[2]) > 1:
                             t = tag_of(e[2][1]) or ''
                             ws = set(m for m in _re.findall(r'call:([A-Za-z_0-9]+)@\d+\(self[,)]', t) if is_transformer(owner + '::' + m))
+                            if _re.match(r'^(try:)?call:lit@\d+', t):
+                                ws.add('LITERAL')
                             sites.append((d, e[3], frozenset(ws)))
         if not sites:
             continue
-        wideners = set.union(*[set(w) for _, _, w in sites])
+        wideners = set.union(*[set(w) for _, _, w in sites]) - {'LITERAL'}
         if not wideners:
             ctx.skip(rule, owner, 'no publication of this type routes its argument through a method of the type')
             continue
         n += 1
-        missing = [(d, l) for d, l, w in sites if not (w & wideners)]
+        # publishing a bare literal (the `lit(true)` placeholder that keeps every row) needs no widening
+        missing = [(d, l) for d, l, w in sites if not (w & wideners) and 'LITERAL' not in w]
         inst = owner.rsplit('::', 1)[-1]
         if missing:
             d, l = missing[0]
